@@ -84,6 +84,12 @@ type Config struct {
 	// makes to a file below a task temp directory or to an audit file stores only half of the data
 	// and fails with ENOSPC (a short write on a full disk)
 	DiskFullAt int
+	// NoFDFrom > 0: the process is out of file descriptors for a while: the
+	// NoFDFrom-th .. (NoFDFrom+NoFDLen-1)-th descriptor-opening call of Go code
+	// (open, create, read/write whole file, temp file, read directory) fails
+	// with EMFILE; calls that need no descriptor (stat, rename, remove, mkdir)
+	// are not affected
+	NoFDFrom, NoFDLen int
 	ClockTick  int64 // ns added per time.Now() reading
 	ClockGran  int64 // readings truncated to a multiple of this (coarse clock); 0/1: exact
 	Epoch      int64 // unix ns of simulated time zero
